@@ -85,9 +85,21 @@ def d3_scale_nice(domain, nice):
 
 def d3_scale_niceStep(step):
     if step:
+
+        def is_multiple(x):
+            # x / step is only exact up to rounding: 0.0025 / 2e-05 is
+            # 124.99999999999999, so an end point that already is a multiple
+            # of the step must not be pushed out by a further step
+            q = x / step
+            return abs(q - round(q)) <= 1e-9 * max(1.0, abs(q))
+
         return {
-            "floor": lambda x: math.floor(x / step) * step,
-            "ceil": lambda x: math.ceil(x / step) * step,
+            "floor": lambda x: x
+            if is_multiple(x)
+            else math.floor(x / step) * step,
+            "ceil": lambda x: x
+            if is_multiple(x)
+            else math.ceil(x / step) * step,
         }
     else:
         return {"floor": lambda x: x, "ceil": lambda x: x}
